@@ -7,8 +7,8 @@ TECH = "deterministic simulation with fault injection"
 
 CHECKS = {
  "C02": ("pktsim", "exploration", "7 C02",
-         "seeded simulated runs: real encoder -> faulty packet transport (drop/dup/reorder/misroute/truncate/extend/flip/stomp/flag lies, header packets included) -> real packet-level decoder under ASan + divide/bounds checks, with per-call CPU/heap budgets, exit() interception and clear-after-reject ledger check",
-         "sampling of corruptions of encoder-produced streams, not every boundary value of every setup field; libogg uninstrumented"),
+         "seeded simulated runs: real encoder output and hand-built legal streams (sim/craft.cpp: floor 0/1, residue 0/1/2, sparse/ordered/lookup-2 codebooks, 1-4 modes, 64-sample blocks) -> faulty packet transport (drop/dup/reorder/misroute/truncate/extend/flip/stomp/flag and granule lies, field-aimed header damage from an independent field map, header sweeps, late repeated headers) -> real packet-level decoder in seeded call orders (track-only, rejected packet then blockin, mid-stream half-rate, restart) under ASan + divide/bounds checks, with per-call CPU/heap budgets, exit() interception and clear-after-reject ledger check",
+         "set-ups and corruptions are sampled (header sweeps enumerate every field of a header slice x ten value kinds); libogg uninstrumented"),
  "C03": ("vfsim", "exploration", "6 C03",
          "seeded simulated runs: page-level storage/transport damage (drop/dup/swap/move/garbage/stale-CRC flip/sealed flip/granule, serial, sequence and flag lies/tear/truncate/no-EOS) x read-size schedules x op histories against real vorbisfile under ASan; documented return codes, per-op seam-event budget and CPU watchdog, close-count and cleared-handle checks",
          "damage is reached as corruption of encoder-produced streams; event budget is a calibrated polynomial bound, not a proof of termination"),
@@ -27,30 +27,30 @@ CHECKS = {
  "C10": ("vfsim", "exploration", "6 C10",
          "one physical stream, four consumers (reference, packet API over libogg fed in seeded fragments, vorbisfile seekable, vorbisfile non-seekable incl. initial-bytes buffer) under seeded read-callback size schedules: bit-identical PCM, no OV_HOLE",
          "byte-delivery schedules are sampled"),
- "C11": ("pktsim", "fault_enumeration", "6 C11",
-         "for sampled links, the disturbance position is enumerated over packet indices for each fault kind (drop, duplicate, truncate, bit flips, foreign packet, restart, fresh decoder); chunks from the second packet after the disturbance must be bit-identical to the clean decode",
+ "C11": ("pktsim+vfsim", "fault_enumeration", "6 C11",
+         "for sampled links, the disturbance position is enumerated over packet indices for each fault kind (drop, duplicate, truncate, bit flips, foreign packet, restart, fresh decoder); chunks from the second packet after the disturbance must be bit-identical to the clean decode; plus, through vorbisfile (30 % of the budget): one page lost / failing its checksum / repeated in an intact stream, read through: bit-identical audio at the reported positions away from the gap",
          "links are sampled; multi-fault plans are sampled"),
  "C12": ("vfsim", "fault_enumeration", "6 C12",
-         "I/O faults (EIO, premature EOF, 1-byte read, seek -1, tell -1; one-shot / n calls / until heal) attached to a callback ordinal of an op of a seeded scenario; error-or-EOF during faults, no close behind the caller, exact recovery (C07/C08 oracle) after heal when the open had completed",
+         "I/O faults (EIO, premature EOF, 1-byte read, seek -1, tell -1; one-shot / n calls / until heal) attached to a callback ordinal of an op of a seeded scenario; error-or-EOF during faults, no close behind the caller, a seek that returns 0 under a fault must stand where a seek stands (or at end-of-stream); exact recovery (C07/C08 oracle) after heal when the open had completed",
          "fault position is sampled per run in quick tier, swept per scenario in thorough tier"),
  "C13": ("vfsim", "exploration", "6 C13",
          "allocator ledger (link-time --wrap of malloc family, covers libvorbis and libogg) evaluated at the end of every simulated run after the documented clear calls, clears issued twice in a share of runs, close-callback count from the SimFile log; workload mix of intact, I/O-fault and damaged-stream runs plus encoder template sweep and packet-decoder header prefixes",
          "allocation failure is not injected (unhandled by design)"),
  "C14": ("encsim", "exploration", "6 C14",
-         "rate manager driven by real analysis and by a stub analysis stage emitting seeded adversarial packet-size sequences; token-bucket invariant checked online over every window of the packet history against limits read back through OV_ECTL_RATEMANAGE2_GET",
+         "rate manager driven by real analysis and by a stub analysis stage emitting seeded adversarial packet-size sequences; token-bucket invariant checked online over every window of the packet history against the limits in force (internal set-up, cross-checked with OV_ECTL_RATEMANAGE2_GET), and the reservoir fill level read after every block (0 <= fill <= reservoir_bits); limits set through the control interface and through vorbis_encode_init, reservoirs down to 0 bits, out-of-range bias",
          "one-bit-per-block rounding allowance as stated in DESIGN"),
  "C17": ("vfsim", "exploration", "6 C17",
          "ov_read in all (word, sign, endian, length) combinations inside seek/read histories over SimFile: bytes must equal round/clip/interleave of the reference floats at the pre-call position, whole frames, canary beyond the return value, EINVAL for sub-frame buffers, FP environment preserved",
-         "conversion arithmetic itself is a pure function; simulation contributes the history context"),
+         "conversion arithmetic itself is a pure function; simulation contributes the history context (streaming and seekable handles, half-rate toggles, 254/255-channel and hand-built streams with samples far outside +-1, non-idempotent filters with large gains)"),
  "C18": ("mtsim", "exploration", "6 C18",
-         "2-6 independent codec tasks on real threads parked and released by a seeded scheduler with preemption at every libvorbis CFG edge, allocator call and I/O callback; each task's observation hash must equal its solo run and a solo run under a different heap/stack poison pattern",
+         "2-6 independent codec tasks on real threads parked and released by a seeded scheduler with preemption at every libvorbis CFG edge, allocator call and I/O callback; each task's observation hash must equal its solo run and a solo run under a different heap/stack poison pattern and stale errno; encoders from 8 to 192 kHz and down to 0 samples, decoders and vorbisfile handles on encoder-made and hand-built streams, files with trailing bytes or cut inside their last pages",
          "preemption granularity is a CFG edge; torn accesses inside a basic block are not reproduced"),
  "C19": ("vfsim", "exploration", "6 C19",
-         "twin handles (lapped vs plain) driven through the same seeded history over SimFile: return codes, landing position, bit-identity outside the first half short block, computed window-weighted cross-fade inside it, ov_crosslap on two handles",
+         "twin handles (lapped vs plain) driven through the same seeded history over SimFile: return codes, landing position, bit-identity outside the first half short block, computed window-weighted cross-fade inside it (old audio from the reference model, or from the plain twin for handles without decode state / at half rate / after a failed seek), ov_crosslap on two handles at equal and different half-rate settings",
          "cross-fade compared with 8-ulp tolerance against the spec window formula; K2/K3 recorded as known findings"),
  "C20": ("vfsim", "exploration", "6 C20",
          "half-rate reference model per link; toggles at arbitrary points of seek/read histories (seekable) or before the first read (streaming); refusal clause decided by a twin that performs a no-op toggle",
-         "64-sample-block links are produced by header rewrite (encoder cannot emit them) and are only used for the refusal twin"),
+         "64-sample-block links come from header rewrite (refusal twin only: positions inexact) and from hand-built streams with genuine 64-sample blocks (refusal checked position-exactly)"),
 }
 
 NOT_APPLICABLE = [
@@ -82,14 +82,14 @@ def main(claimed):
         if pid not in claimed:
             na.append({"property_id": pid, "reason": "simulation target (see DESIGN.md), engine not finished yet - not claimed in this revision"})
     engines_all = {
-        "vfsim": ("sim/vfsim.cpp", "vorbisfile over SimFile callbacks: op histories, read-size schedules, I/O faults, page damage, twin handles"),
-        "pktsim": ("sim/pktsim.cpp", "encoder -> PacketChannel (transport faults) -> packet-level decoder"),
+        "vfsim": ("sim/vfsim.cpp", "vorbisfile over SimFile callbacks (and over stdio through a cookie): op histories, read-size schedules, I/O faults, page damage, single-page gaps, twin handles"),
+        "pktsim": ("sim/pktsim.cpp", "encoder output and hand-built streams (sim/craft.cpp) -> PacketChannel (transport faults, field-aimed header damage) -> packet-level decoder in seeded call orders"),
         "encsim": ("sim/encsim.cpp", "producer/consumer schedules of the encoder; rate-manager token bucket with real and stub analysis"),
         "mtsim": ("sim/mtsim.cpp", "seeded scheduler over real parked threads, preemption at CFG edges"),
     }
     engines = []
     for name, (path, kind) in engines_all.items():
-        serves = [p for p in sorted(claimed) if CHECKS[p][0] == name]
+        serves = [p for p in sorted(claimed) if name in CHECKS[p][0].split("+") or (p == "C13" and name in ("pktsim", "encsim"))]
         if serves:
             engines.append({"name": name, "path": path, "serves_properties": serves, "kind_free_text": kind})
     m = {
